@@ -8,6 +8,7 @@ import Driver.ShareClass
 import Driver.Route
 import Driver.Lockup
 import Driver.IbcSwap
+import Driver.Untrusted
 open Sunrise.Driver
 
 def evalLine (line : String) : String :=
@@ -32,6 +33,7 @@ def suites : List (String × (IO.FS.Stream → IO.FS.Stream → IO Unit)) :=
   [("route", RouteSuite.run)] ++
   [("lockup", LockupSuite.run)] ++
   [("ibc", IbcSuite.run)] ++
+  [("untrusted", UntrustedSuite.run)] ++
   []
 
 def main : IO Unit := do
